@@ -16,7 +16,12 @@ CONFIG = dict(
                "method, undecodable payload, request to a notify-shaped method, handler failure/panic); a notification is never answered and runs "
                "the handler exactly once when deliverable (notify_once_no_response); over every history of interleaved requests from any number of "
                "connections and time steps, written + in-flight responses = requests per (connection, id), and 42 s after the last message each "
-               "has exactly its responses (history_conservation, history_exactly_one, history_no_response_to_notify). Requests are NOT assumed independent: "
+               "has exactly its responses (history_conservation, history_exactly_one, history_no_response_to_notify). The synchronous frame of a request handler is modelled after "
+               "APIContainer.CallMethod + SafeCall as they are since 7b326e6 (the handler gets a wrapper that records a completion that WENT THROUGH; the recover path completes with the error only if none did): for EVERY body "
+               "(list of acts complete-through / complete-on-which-the-completion-function-panics / panic) that calls its completion function at most once and is not an empty frame, exactly one completion reaches the "
+               "caller (callmethod_exactly_one); for every body whatsoever SafeCall adds nothing to a completion that went through and a frame that ends in a panic is never left uncompleted "
+               "(safecall_adds_nothing_after_completion, panicked_frame_is_completed); the per-message model's behaviour table is that function on each behaviour's frame (behResult_is_callMethod), hence complete-then-panic "
+               "yields exactly the handler's result and a panicking completion function exactly one error response, front-local and forwarded (complete_then_panic_one_response, completion_panic_gets_error; d23_witness = the code before the repair). Requests are NOT assumed independent: "
                "Model/ClientShared.lean is one state machine for the whole front-end — FIFO mailbox of the owner (session add/remove, client messages, routing-key "
                "changes, back-end replies), session table read when a message is processed, request-id allocator + pending table of RequestEx (a reply completes the "
                "entry stored under the id it carries, a reply without entry is dropped, the expiry scan completes an entry with the timeout error), queues of the "
@@ -31,11 +36,14 @@ CONFIG = dict(
                "code on every run: generated cases (1-3 clients, bursts written concurrently, bindings to live / unknown / dead / wrong-type "
                "instances, all zoo methods, malformed routes, ids 0/1/127/128/16383/16384/2^32-1 and a stream of ids >= 2^32 (2^32, 2^32+5, 2^33+1, 2^64-1), valid/undecodable/empty/null payloads, slow and "
                "late handlers, 31 s forward timeouts, handler durations of 2 s / 29 s / 33 s / 42 s around the 30 s request timeout, bursts delivered in fragments of 1-64 bytes through the real TCP stream reassembly, back-end handlers that never "
-               "complete or complete twice, handler errors with an empty text) run through the real node and compared as multisets per connection; the shared "
+               "complete or complete twice, handler errors with an empty text, handlers that complete and then panic / whose result makes the completion function panic / that panic after an asynchronous completion — at the front and at the back-ends —, "
+               "and every handler frame of up to 3 acts + random ones of up to 4 driven directly through the real CallWithSerialize/CallMethod/SafeCall, op frame) run through the real node and compared as multisets per connection; the shared "
                "machine runs next to the per-message model in the driver on the same traffic and must agree with it at the end of every case.",
-    level_note="Partial: FRONT-LOCAL handlers complete exactly once (never/twice excluded by the Beh type; reproduced on the code and reported: a front-local handler "
-               "that never completes leaves the client unanswered — no timeout net —, one that panics after completing gets TWO responses because SafeCall completes again); "
-               "forwarded requests need no such assumption (events lose/dup of the shared machine; tied by the back-only handlers zoob.hang / zoob.okboom); "
+    level_note="Partial: FRONT-LOCAL handler bodies call their completion function at most once and do not stay silent (never/twice excluded by the Beh type; reproduced on the code and reported: a front-local handler "
+               "that never completes — an asynchronous continuation that panics inside the service's timer — leaves the client unanswered: no timeout net). Panics AROUND the completion are inside the model since /repo 7b326e6 (D23 repaired): "
+               "complete-then-panic = exactly one response (the handler's result), a completion function that itself panics (the result's MarshalJSON panics) = exactly one error response, on both paths "
+               "(model callMethod = CallMethod's completed flag + SafeCall; theorems callmethod_exactly_one over ALL bodies, complete_then_panic_one_response, completion_panic_gets_error; run: zoo.okboom / zoo.mboom / zoo.slowboom at every type + op frame); "
+               "forwarded requests need no completes-once assumption (events lose/dup of the shared machine; tied by the back-only handler zoob.hang and by okboom); "
                "the request-id allocator of the shared machine does not wrap (wrap and id re-use are C01's; the run exercises the wrap); sessions that close with responses "
                "in flight are C05's; ids >= 2^32 are inside the check as known finding D19 (model truncates like the code, the spec monitor reports C02/request-id-truncated); routes that are not "
                "valid UTF-8 are modelled (forwarded envelope not serialisable -> error response); a forwarded handler result that cannot be marshalled or a handler error with an EMPTY text reaches the client as a success with an empty body (modelled, theorem unserialisable_result, reported); the timeout instant "
@@ -49,7 +57,9 @@ CONFIG = dict(
                        "unserviceable_gets_error", "notify_once_no_response", "history_conservation", "history_exactly_one", "d20_witness", "unserialisable_result", "unserialisable_envelope_gets_error",
                        "shared_conservation", "shared_never_more", "shared_exactly_one", "shared_can_quiesce", "shared_nothing_dropped",
                        "shared_no_response_to_notify", "shared_response_justified", "shared_data_from_own_target",
-                       "shared_front_local_is_serve", "serve_answer_allowed", "shared_reply_matches", "shared_pending_ids_unique"],
+                       "shared_front_local_is_serve", "serve_answer_allowed", "shared_reply_matches", "shared_pending_ids_unique",
+                       "callmethod_exactly_one", "safecall_adds_nothing_after_completion", "panicked_frame_is_completed", "behResult_is_callMethod",
+                       "d23_witness", "complete_then_panic_one_response", "completion_panic_gets_error"],
     harness_pkg="./c02",
     go_flags=["-overlay=/verif/harness/c02/overlay/overlay.json"],
     mode="diff",
@@ -60,24 +70,25 @@ CONFIG = dict(
                      dict(name="seed2", env={"VERIF_N": "40000"}, seed_offset=7919, timeout=1500),
                      dict(name="seed3", env={"VERIF_N": "40000"}, seed_offset=104729, timeout=1500)],
     },
-    trivial=r"^(ok|bad-op|r= i=)?$",
-    rule="corpus (the D4a/D4b witnesses, an interleaving case, fragmented delivery, misbehaving back-end handlers) then generated cases from one PRNG (VERIF_SEED): reset with 1-3 handshaken clients; "
+    trivial=r"^(ok|bad-op|r= i=|done=)?$",
+    rule="corpus (the D4a/D4b witnesses, an interleaving case, fragmented delivery, misbehaving back-end handlers, the D23 family: complete-then-panic / panicking completion function on both paths), all 85 handler frames of up to 3 acts (op frame), then generated cases from one PRNG (VERIF_SEED): reset with 1-3 handshaken clients; "
          "binds of the routing key to chat-1/chat-2/unknown/dead/wrong-type/empty; bursts of 1-6 messages written by all clients at once "
-         "(1 burst in 4 reaches the server in pieces of 1/2/3/5/7/16/64 bytes: op token frag=<k>; route: 85% type{gate,chat,hall,room} x group{zoo,nogrp,\"\"} x method{echo,fail,fail0,boom,slow,late,s29,s33,tell,nan,login,loginw,nosuch,\"\"}, 4% {chat,hall,gate}.zoob.{hang,okboom} (back-only group: never completes / completes twice), 15% malformed; id: 0 and "
+         "(1 burst in 4 reaches the server in pieces of 1/2/3/5/7/16/64 bytes: op token frag=<k>; route: 85% type{gate,chat,hall,room} x group{zoo,nogrp,\"\"} x method{echo,fail,fail0,boom,slow,late,s29,s33,tell,nan,login,loginw,okboom,mboom,slowboom,nosuch,\"\"}, 4% {chat,hall,gate}.zoob.{hang,okboom} (back-only group: never completes / completes twice), 15% malformed; id: 0 and "
          "varint boundaries or random, unique per connection also modulo 2^32; 1 message in 64 carries an id >= 2^32 on a serviceable route (known finding D19); payload 80% valid with a case-unique value, else undecodable/empty/wrong type/null); "
-         "new clients that pipeline 1-4 messages behind their handshake while the front's owner goroutine is kept busy (AddSession posted, not yet run; repaired defect D20); re-handshakes on working connections with replies in flight (hs/ack; data packets sent in between are ignored by the reader), handlers whose result cannot be marshalled (zoo.nan), cases that start with the front's service-request counter 1-4 below MaxReqId (wrap); routes that are not valid UTF-8 (the forwarded envelope cannot be serialised); one flood per run: a client that stops reading, pipelines 10080 requests (more than the session's 9999-slot send queue) and resumes; cluster-view changes (node n2 carrying chat-2 and hall-2 becomes Init/Working/Retiring/Retired while sessions are bound to chat-2; the default route of type hall picks the first working instance); handlers that bind a user id and push the session to the front before completing, with and without waiting (zoo.login / zoo.loginw, first bind and re-bind); 5 s time steps; a final 45 s flush. One evaluation = one op; observation = per-connection multiset of (kind,id,errflag,payload hex) "
-         "read by the clients + multiset of handler invocations per service; non-trivial = something was read or invoked",
+         "new clients that pipeline 1-4 messages behind their handshake while the front's owner goroutine is kept busy (AddSession posted, not yet run; repaired defect D20); re-handshakes on working connections with replies in flight (hs/ack; data packets sent in between are ignored by the reader), handlers whose result cannot be marshalled (zoo.nan), cases that start with the front's service-request counter 1-4 below MaxReqId (wrap); routes that are not valid UTF-8 (the forwarded envelope cannot be serialised); one flood per run: a client that stops reading, pipelines 10080 requests (more than the session's 9999-slot send queue) and resumes; cluster-view changes (node n2 carrying chat-2 and hall-2 becomes Init/Working/Retiring/Retired while sessions are bound to chat-2; the default route of type hall picks the first working instance); handlers that bind a user id and push the session to the front before completing, with and without waiting (zoo.login / zoo.loginw, first bind and re-bind); 1 step in 20 is op frame body=<0-4 acts over c,m,e,p>: one request-handler frame driven directly through the real CallWithSerialize / APICollection.Call / CallMethod / SafeCall with a completion function shaped like Process's (observation: the completions it received, in order); 5 s time steps; a final 45 s flush. One evaluation = one op; observation = per-connection multiset of (kind,id,errflag,payload hex) "
+         "read by the clients + multiset of handler invocations per service (op frame: done=<d|e…>); non-trivial = something was read, invoked or completed",
     trusted_base=[
         "Lean 4.33.0 kernel; axioms audited per theorem (propext, Classical.choice, Quot.sound)",
         "hand-written model lean/Cell2v/Model/ClientServe.lean tied to node/client/impls/{handler,forwarder,sessions}.go, builtin/system.go, "
-        "apimapper/apientry, actorex/service by the differential run (harness/c02 + harness/node + modeld_c02)",
+        "apimapper/apientry, actorex/service by the differential run (harness/c02 + harness/node + modeld_c02); its function callMethod (CallMethod's completed flag + SafeCall) is tied twice: through the node (zoo.okboom/mboom/boom/fail/nan on both paths) and directly (op frame: arbitrary bodies through the real apientry.CallWithSerialize)",
         "engine harness/node: real components assembled in one process; bypassed: TCP listener/accept loop and WS acceptor (net.Pipe wrapped in the REAL tcpPlayerConn through the one-line shim harness/c02/overlay/export_verif.go, mapped into package acceptor with go test -overlay; nothing under /repo is modified), actor remote, etcd",
         "the shared-state machine Model/ClientShared.lean is tied to the code through the per-message model: it is built from the same functions (tryCallCol, processForward, splitClientRoute, routeSerialisable, envelope), theorem serve_answer_allowed / shared_front_local_is_serve relate the two, and modeld_c02 runs both on every generated case and reports 'shared-model-diverges' in the flush observation if their responses or handler invocations differ",
         "go1.26.8 testing/synctest (virtual time, quiescence detection)",
         "harness canonicalisation: multisets (sorted) per op, heartbeats/handshake filtered, error responses carry no payload on the wire",
     ],
     assumptions=[
-        "every FRONT-LOCAL handler completes exactly once (a front-local handler that never completes or completes twice — also through SafeCall's completion after a panic — leaves the client without / with two responses: reproduced, reported, excluded); back-end handlers may do either (shared machine events lose/dup; zoob.hang, zoob.okboom in the run)",
+        "every FRONT-LOCAL handler body calls its completion function at most once and either completes or panics in its synchronous frame or completes later from a timer (a front-local handler that never completes / calls its completion function twice leaves the client without / with two responses: reproduced, reported, excluded; panics before, after and INSIDE the completion are modelled and proved: callMethod); back-end handlers may do either (shared machine events lose/dup; zoob.hang in the run)",
+        "the completion function handed to CallMethod panics, if at all, before it has written anything (true of Process's and ProcessForwardMsg's closures: the only call that can panic is serializer.Marshal, which precedes ResponseMID / the reply) and does not panic on an error completion",
         "a back-end reply that is not the msgs.Response built by ProcessForwardMsg (other type, wrong SessionId/ClientReqId) is dropped silently by the front (theorem mismatched_reply_dropped); that this never happens to a reply of ProcessForwardMsg is an invariant of the shared machine (shared_reply_matches), given that request ids are not re-used while pending (C01)",
         "a request forwarded to an instance of the wrong type, to a PID without a living actor, or to a handler slower than 30 s is answered by the request-timeout error",
         "routes <= 255 bytes (a route that is not valid UTF-8 is modelled: the forwarded envelope cannot be serialised -> one error response; a genuine U+FFFD in a route is not generated)",
